@@ -862,12 +862,22 @@ func (e *Env) call(n *ast.CallExpr) *Value {
 	case "holds", "rholds", "unlocked":
 		m := e.eval(n.Args[0])
 		var key string
-		if m.K == KPtr {
-			key = x.ptrTerm(m.P)
-		} else {
-			lv := e.lvalue(n.Args[0])
-			key = x.ptrTerm(lv.P)
+		mp := m.P
+		if m.K != KPtr {
+			mp = e.lvalue(n.Args[0]).P
 		}
+		// wrappers such as libs/sync.RWMutex{sync.RWMutex}: the lock is the embedded standard mutex
+		for mp != nil && !mp.Nil {
+			_, t := pathInfo(mp.Root, mp.Path)
+			stt, ok := t.Underlying().(*types.Struct)
+			if !ok || stt.NumFields() != 1 || !stt.Field(0).Embedded() {
+				break
+			}
+			np := *mp
+			np.Path = append(append([]Sel(nil), mp.Path...), Sel{Field: 0})
+			mp = &np
+		}
+		key = x.ptrTerm(mp)
 		locks := e.view().locks
 		switch fname {
 		case "holds":
